@@ -1,5 +1,97 @@
-(* C09 property theorems (stub, replaced below). *)
-From Coq Require Import ZArith List.
-From C09 Require Import Model.
-Theorem C09_stub : norm nil = nil. Proof. reflexivity. Qed.
-Print Assumptions C09_stub.
+(* C09 property theorems.  Nothing but statements closed by `exact`, each followed by Print Assumptions.
+   p is a prime; a polynomial is the list of its coefficients, low degree first; canon p P = every coefficient in [0,p)
+   and no trailing zero; eqp p A B = congruent modulo p coefficient by coefficient (ProofsAlg.eqp_coeff / coeff_eqp);
+   prodl = product of a list; `s` is the stream of generator outputs the code consumes (any stream). *)
+From Coq Require Import ZArith List Znumtheory.
+From C09 Require Import Model ProofsAlg ProofsDiv ProofsSplit ProofsIrr ProofsSweepIrr ProofsSweepSqr ProofsSweepOrd.
+Import ListNotations.
+Local Open Scope Z_scope.
+
+(* meaning of eqp *)
+Theorem C09_congruence_is_coefficientwise : forall p, prime p -> forall A B,
+  eqp p A B <-> (forall i, (nth i A 0) mod p = (nth i B 0) mod p).
+Proof. intros p Hp A B. split; [exact (eqp_coeff p Hp A B)|exact (coeff_eqp p Hp A B)]. Qed.
+Print Assumptions C09_congruence_is_coefficientwise.
+
+(* division with remainder (Poly1Dom::divmod as modelled): A = B Q + R, deg R < deg B, results normalised *)
+Theorem C09_divmod_exact : forall p, prime p -> forall A B, canon p A -> canon p B -> B <> [] ->
+  eqp p A (paddZ (pmulZ B (pdiv p A B)) (pmod p A B)) /\ canon p (pdiv p A B) /\ canon p (pmod p A B) /\
+  (length (pmod p A B) < length B)%nat.
+Proof. exact pdivmod_spec. Qed.
+Print Assumptions C09_divmod_exact.
+
+Theorem C09_remainder_of_multiple_is_zero : forall p, prime p -> forall P D, canon p P -> canon p D -> D <> [] ->
+  divides p D P -> pmod p P D = [].
+Proof. exact mod_zero_of_divides. Qed.
+Print Assumptions C09_remainder_of_multiple_is_zero.
+
+(* Euclid's gcd (Poly1Dom::gcd as modelled), whenever it is not constant, divides both arguments *)
+Theorem C09_gcd_divides : forall p, prime p -> forall P Q, canon p P -> canon p Q -> 0 < deg (pgcd p P Q) ->
+  divides p (pgcd p P Q) P /\ divides p (pgcd p P Q) Q /\ canon p (pgcd p P Q).
+Proof. exact pgcd_spec. Qed.
+Print Assumptions C09_gcd_divides.
+
+(* equal-degree splitting, container form: for every stream, the call only appends factors whose product is G *)
+Theorem C09_split_preserves_product : forall p, prime p -> forall fuel G d MOD L s L' s', canon p G ->
+  split p fuel G d MOD L s = Some (L', s') ->
+  exists N, L' = L ++ N /\ eqp p (prodl N) G /\ Forall (canon p) N.
+Proof. exact split_spec. Qed.
+Print Assumptions C09_split_preserves_product.
+
+(* equal-degree splitting, single-factor form: for every stream, the result divides G *)
+Theorem C09_split1_returns_divisor : forall p, prime p -> forall fuel G d MOD s R s', canon p G ->
+  split1 p fuel G d MOD s = Some (R, s') -> divides p R G /\ canon p R.
+Proof. exact split1_spec. Qed.
+Print Assumptions C09_split1_returns_divisor.
+
+(* distinct-degree factorisation: for every stream, appended factors times a constant cofactor give back f *)
+Theorem C09_ddf_preserves_product : forall p, prime p -> forall f MOD L s L' s', canon p f ->
+  ddf p f MOD L s = Some (L', s') ->
+  exists N u, L' = L ++ N /\ eqp p (pmulZ (prodl N) u) f /\ deg u <= 0 /\ Forall (canon p) N.
+Proof. exact ddf_spec. Qed.
+Print Assumptions C09_ddf_preserves_product.
+
+(* the verified irreducibility checker (divisor search) is sound and complete against the definition *)
+Theorem C09_irreducible_b_sound : forall p, prime p -> forall P, canon p P -> irreducible_b p P = true -> irreducible_def p P.
+Proof. exact irreducible_b_sound. Qed.
+Print Assumptions C09_irreducible_b_sound.
+Theorem C09_irreducible_b_complete : forall p, prime p -> forall P, canon p P -> irreducible_def p P -> irreducible_b p P = true.
+Proof. exact irreducible_b_complete. Qed.
+Print Assumptions C09_irreducible_b_complete.
+
+(* the verified order checker returns the least exponent m >= 1 with A^m = 1 (mod F), or 0 if there is none <= bound *)
+Theorem C09_brute_order_is_least_exponent : forall p A F bound,
+  let A' := pmod p A F in
+  let r := brute_order p A F bound in
+  (r = 0 /\ forall i, (1 <= i <= Z.to_nat bound)%nat -> npow p A' F i <> pone) \/
+  (exists m, r = Z.of_nat m /\ (1 <= m)%nat /\ npow p A' F m = pone /\ forall i, (1 <= i < m)%nat -> npow p A' F i <> pone).
+Proof. exact brute_order_spec. Qed.
+Print Assumptions C09_brute_order_is_least_exponent.
+
+(* a request for a random irreducible polynomial of degree n, when it returns, returns n+1 coefficients that passed the test *)
+Theorem C09_random_irreducible_exit : forall p n MOD s R s', random_irreducible p n MOD s = Some (R, s') ->
+  is_irreducible p (norm R) MOD = true /\ length R = S n.
+Proof. exact random_irreducible_spec. Qed.
+Print Assumptions C09_random_irreducible_exit.
+
+(* bounded, by complete kernel sweeps: both implemented tests decide irreducibility (the definition) for EVERY polynomial
+   of degree <= d over GF(p), (p,d) in irr_bounds = [(2,9); (3,5); (5,3); (7,3)]  (partial: larger sizes are not proved) *)
+Theorem C09_irreducibility_tests_decide_partial : Irr_tests_decide_bounded.
+Proof. exact irr_tests_decide_bounded. Qed.
+Print Assumptions C09_irreducibility_tests_decide_partial.
+
+(* bounded: square-free decomposition multiplies back up to a constant, parts square-free and pairwise coprime, for EVERY
+   polynomial of degree <= d over GF(p), (p,d) in sqrfree_bounds = [(3,2); (5,4); (7,3); (11,2)]  (characteristic > degree) *)
+Theorem C09_sqrfree_multiplies_back_partial : Sqrfree_bounded.
+Proof. exact sqrfree_bounded. Qed.
+Print Assumptions C09_sqrfree_multiplies_back_partial.
+(* the unbounded statement Sqrfree_all is false in small characteristic (known finding: no p-th-root branch) *)
+Theorem C09_sqrfree_all_refuted : exists p P, prime p /\ canon p P /\ P <> [] /\ sqrfree_ok p P = false.
+Proof. exact sqrfree_all_refuted. Qed.
+Print Assumptions C09_sqrfree_all_refuted.
+
+(* bounded: order and is_prim_root agree with the verified order checker for EVERY element of GF(p^n) = F_p[X]/(F),
+   every irreducible F of degree n, (p,n) in order_bounds *)
+Theorem C09_order_and_primitivity_partial : Order_bounded.
+Proof. exact order_bounded. Qed.
+Print Assumptions C09_order_and_primitivity_partial.
